@@ -4,7 +4,7 @@ Usage: run_refactors.py <dir with *.patch.diff> [name-filter]   -> prints alarms
 import os, re, sys, json, shutil, subprocess, hashlib, glob
 from multiprocessing import Pool
 ROOT = os.path.dirname(os.path.dirname(os.path.abspath(__file__)))
-SCRATCH = "/tmp/ckc-refac"
+SCRATCH = "/tmp/ckc-refac-%d" % os.getpid()
 PROPS = ["C%02d" % i for i in range(1, 21)]
 
 
@@ -36,7 +36,7 @@ def one(path):
 
 
 if __name__ == "__main__":
-    d = sys.argv[1]
+    d = os.path.abspath(sys.argv[1])
     flt = sys.argv[2] if len(sys.argv) > 2 else ""
     files = sorted(f for f in glob.glob(os.path.join(d, "**", "*.patch.diff"), recursive=True) if flt in f)
     res = {}
@@ -45,4 +45,5 @@ if __name__ == "__main__":
             res[name] = alarms
             print(name, "SILENT" if not alarms else json.dumps(alarms, indent=1)[:1500], flush=True)
     json.dump(res, open(os.path.join(d, "RESULTS.json"), "w"), indent=1)
+    shutil.rmtree(SCRATCH, ignore_errors=True)
     print("refactors: %d, with alarms: %d" % (len(res), sum(1 for v in res.values() if v)))
